@@ -84,7 +84,7 @@ class ODMLWriter:
             # Render the document before opening the file; if this fails no file
             # must be created and an existing file must keep its content.
             data = self.to_string(odml_document, **kwargs)
-            with open(filename, 'w') as file:
+            with open(filename, 'w', encoding='utf-8') as file:
                 file.write(data)
 
     def to_string(self, odml_document, **kwargs):
@@ -205,7 +205,7 @@ class ODMLReader:
             return self.doc
 
         if self.parser == 'YAML':
-            with open(file) as yaml_data:
+            with open(file, encoding='utf-8') as yaml_data:
                 try:
                     yaml.SafeLoader.add_constructor("tag:yaml.org,2002:python/unicode",
                                                     unicode_loader_constructor)
@@ -227,7 +227,7 @@ class ODMLReader:
             return self.doc
 
         if self.parser == 'JSON':
-            with open(file) as json_data:
+            with open(file, encoding='utf-8') as json_data:
                 try:
                     self.parsed_doc = json.load(json_data)
                 except ValueError as err:  # Python 2 does not support JSONDecodeError
